@@ -1,6 +1,6 @@
 CONSTANTS
   Depth = 2
-  DepthIgn = 2
+  DepthIgn = 1
   Shape = "full"
 SPECIFICATION Spec
 INVARIANT Emit
